@@ -23,6 +23,8 @@ from __future__ import annotations
 import ast
 import copy
 
+EXTERNAL_REFS: dict = {}   # file -> identifiers used in other files (filled by globalnorm.apply)
+
 LOGGERS = {'logger', 'log', '_logger', '_log', 'LOGGER', 'LOG', 'logging'}
 LOG_LEVELS = {'debug', 'info'}
 _SCOPES = (ast.FunctionDef, ast.AsyncFunctionDef, ast.ClassDef, ast.Lambda)
@@ -531,7 +533,7 @@ def _references(tree, hname, skip) -> int:
     return n
 
 
-def inline_new_helpers(tree, known: set[str]) -> int:
+def inline_new_helpers(tree, known: set[str], external: set[str] = frozenset()) -> int:
     done = 0
     for _ in range(6):  # helpers calling helpers
         progress = False
@@ -564,7 +566,7 @@ def inline_new_helpers(tree, known: set[str]) -> int:
             if n_inl:
                 progress = True
                 done += n_inl
-                if _references(tree, helper.name, helper) == 0:
+                if _references(tree, helper.name, helper) == 0 and helper.name not in external:
                     owner.remove(helper)
                     if not owner:
                         owner.append(ast.Pass())
@@ -871,7 +873,7 @@ def prenormalise(tree, rel: str, R: dict):
     if not known:
         return tree, 0
     n = strip_logging(tree)
-    n += inline_new_helpers(tree, known)
+    n += inline_new_helpers(tree, known, EXTERNAL_REFS.get(rel, frozenset()))
     mutated = _mutated_attrs(tree)
     for q, fn in list(_functions(tree)):
         if q not in known:
